@@ -121,8 +121,8 @@ fn load(e: &mut Emu, enc: Enc, file: Vec<u8>) -> Result<Result<(), String>, Stri
 /// `chunk` > 0: the asset never returns more than that many bytes per read call
 fn load_chunked(e: &mut Emu, enc: Enc, file: Vec<u8>, chunk: usize) -> Result<Result<(), String>, String> {
     let r = std::panic::catch_unwind(std::panic::AssertUnwindSafe(|| match enc {
-        Enc::Sna => e.load_snapshot(Snapshot::Sna(VAsset::new(file).chunked(chunk))),
-        Enc::Szx { .. } => e.load_snapshot(Snapshot::Szx(VAsset::new(file).chunked(chunk))),
+        Enc::Sna => e.load_snapshot(Snapshot::Sna(VAsset::new(file).chunked(chunk).eof_as_zero(chunk % 2 == 1))),
+        Enc::Szx { .. } => e.load_snapshot(Snapshot::Szx(VAsset::new(file).chunked(chunk).eof_as_zero(chunk % 2 == 1))),
     }));
     match r {
         Ok(Ok(())) => Ok(Ok(())),
